@@ -134,25 +134,48 @@ theorem C06_cex_yearly_after :
     now < midnight (daysFromCivil 2025 3 1) + 10 * usHour := by
   refine ⟨by decide, ⟨2025, by decide, rfl⟩, by decide⟩
 
-/-- finding C06-F10: `once(2/29 8:00)` asked on 31 December 2023 raises (`datetime(2023, 2, 29)` does not exist) although
-29 February 2024 08:00 is denoted; in a list the exception takes the other entries with it. -/
-theorem C06_cex_feb29_common_year :
+/-- fixed finding C06-F10 (b7a2f54): before the fix `once(2/29 8:00)` asked on 31 December 2023 raised (`datetime(2023, 2, 29)`
+does not exist) and in a list took the other entries with it; the code as it is skips the entry – alone it announces nothing, in a
+list the other entry's instant (tomorrow's noon) is announced. -/
+theorem C06_regress_feb29_common_year :
     let P : Params := ⟨C07.Params.trivial, fun a p => a / p, fun _ t => t + 1, fun _ => 0⟩
     let now : Int := 1704063540000000
-    timerNext1 TFlags.current P (.once (.at (.monthDay 2 29) (.hms 8 0 0) 0)) now 0 = none ∧
-    timerNext TFlags.current P [.once (.at .none .noon 0), .once (.at (.monthDay 2 29) (.hms 8 0 0) 0)] now 0 = none ∧
-    Spec.yearly 2 29 (8 * usHour) (midnight (daysFromCivil 2024 2 29) + 8 * usHour) ∧
-    now < midnight (daysFromCivil 2024 2 29) + 8 * usHour := by
-  refine ⟨by decide, by decide, ⟨2024, by decide, rfl⟩, by decide⟩
+    timerNext1 TFlags.preFixSkip P (.once (.at (.monthDay 2 29) (.hms 8 0 0) 0)) now 0 = none ∧
+    timerNext TFlags.preFixSkip P [.once (.at .none .noon 0), .once (.at (.monthDay 2 29) (.hms 8 0 0) 0)] now 0 = none ∧
+    timerNext1 TFlags.current P (.once (.at (.monthDay 2 29) (.hms 8 0 0) 0)) now 0 = some none ∧
+    timerNext TFlags.current P [.once (.at .none .noon 0), .once (.at (.monthDay 2 29) (.hms 8 0 0) 0)] now 0
+      = some ⟨some 1704110400000000, some 1704110400000000⟩ := by
+  refine ⟨by decide, by decide, by decide, by decide⟩
 
-/-- finding C06-F9: a crontab day that never exists (`cron(0 0 30 2 *)`): croniter's iterator raises instead of advancing (here:
-`cronNext id t = t`), `cronLoop` never gets a positive distance and the whole list raises – although its other entry, alone,
-announces today's noon. -/
-theorem C06_cex_cron_impossible_day :
+/-- fixed finding C06-F9 (b7a2f54): a crontab day that never exists (`cron(0 0 30 2 *)`) – croniter's iterator raises instead of
+advancing (here: `cronNext id t = t`, `cronLoop` never gets a positive distance).  Before the fix the whole list raised; the code
+as it is skips the entry and announces today's noon, the other entry's instant. -/
+theorem C06_regress_cron_impossible_day :
     let P : Params := ⟨C07.Params.trivial, fun a p => a / p, fun _ t => t, fun _ => 0⟩
-    timerNext TFlags.current P [.cron 0, .once (.at .none .noon 0)] wMon1000 0 = none ∧
-    timerNext TFlags.current P [.once (.at .none .noon 0)] wMon1000 0 = some ⟨some 1717416000000000, some 1717416000000000⟩ := by
-  refine ⟨by decide, by decide⟩
+    timerNext TFlags.preFixSkip P [.cron 0, .once (.at .none .noon 0)] wMon1000 0 = none ∧
+    timerNext TFlags.current P [.cron 0, .once (.at .none .noon 0)] wMon1000 0 = some ⟨some 1717416000000000, some 1717416000000000⟩ ∧
+    timerNext TFlags.current P [.cron 0] wMon1000 0 = some ⟨none, none⟩ := by
+  refine ⟨by decide, by decide, by decide⟩
+
+/-- **An entry that denotes no instant contributes nothing** (since fix b7a2f54, for every list position and accumulator): a
+`once(...)` whose date does not exist in the year of `now` (first `parse_date_time` raises `ValueError`) and a `cron(...)` whose
+iterator raises leave the accumulated answer as it is – so by `C06_min` the list's answer is the minimum over the OTHER entries. -/
+theorem C06_no_instant_skipped (P : Params) (now st : Int) (s : NT) :
+    (∀ d : DTSpec, parseDT P.base d 0 now st = none → specStep TFlags.current P now st s (.once d) = some s) ∧
+    (∀ id : Nat, cronLoop P id now cronFuel now = none → specStep TFlags.current P now st s (.cron id) = some s) := by
+  refine ⟨fun d h => ?_, fun id h => ?_⟩
+  · simp [specStep, onceCand, h, TFlags.current]
+  · simp [specStep, h, TFlags.current]
+
+/-- finding C06-F11 (what b7a2f54 left): the start (and end) of `period(...)` is parsed outside any `try`: `period(2/29 8:00, 1 h)`
+asked on 31 December 2023 still raises, alone and in a list whose other entry denotes tomorrow's noon. -/
+theorem C06_cex_period_feb29_common_year :
+    let P : Params := ⟨C07.Params.trivial, fun a p => a / p, fun _ t => t + 1, fun _ => 0⟩
+    let now : Int := 1704063540000000
+    timerNext TFlags.current P [.once (.at .none .noon 0), .period (.at (.monthDay 2 29) (.hms 8 0 0) 0) usHour none] now 0 = none ∧
+    timerNext TFlags.current P [.once (.at .none .noon 0), .period (.at .none .noon 0) usHour (some (.at (.monthDay 2 29) .noon 0))] now 0 = none ∧
+    timerNext TFlags.current P [.once (.at .none .noon 0)] now 0 = some ⟨some 1704110400000000, some 1704110400000000⟩ := by
+  refine ⟨by decide, by decide, by decide⟩
 
 /-- finding C06-F3: `once(10:00)` whose trigger was started at exactly 10:00:00.000000 – asked five seconds later it answers
 `none` (the `this_t != startup_time` test suppresses the day offset), although tomorrow 10:00 is denoted. -/
@@ -321,14 +344,19 @@ theorem C06_startup_shutdown_runs (F : TFlags) (P : Params) (cfg : TrigCfg) (st 
   · intro h; simp only [h, if_true]; exact ⟨_, rfl⟩
 
 /-- **cron and daylight saving.**  The cron answer is a local time strictly after now whose distance to now in UTC is
-positive, and `next_time_adj - now` is exactly that real distance (so the wait is right across a DST change). -/
+positive, and `next_time_adj - now` is exactly that real distance (so the wait is right across a DST change) – whenever the entry
+announces anything (an expression whose iterator raises is skipped since b7a2f54: `C06_no_instant_skipped`). -/
 theorem C06_cron_dst (F : TFlags) (P : Params) (hC : CronForward P) (id : Nat) (now st : Int) (r : NT)
-    (h : specStep F P now st ⟨none, none⟩ (.cron id) = some r) :
+    (h : specStep F P now st ⟨none, none⟩ (.cron id) = some r) (hn : r.next ≠ none) :
     ∃ val adj, r.next = some val ∧ r.adj = some adj ∧ now < val ∧ 0 < adj - now ∧
       adj - now = (val - P.utcOff val) - (now - P.utcOff now) := by
   simp only [specStep] at h
   cases hc : cronLoop P id now cronFuel now with
-  | none => simp [hc] at h
+  | none =>
+    simp only [hc] at h
+    split at h
+    · simp at h
+    · simp only [Option.some.injEq] at h; subst h; exact absurd rfl hn
   | some v =>
     simp only [hc, Option.some.injEq] at h
     subst h
